@@ -1,22 +1,16 @@
 (** C03 — sort_strings yields a sorted permutation and exact LCP values.
-    Statements only; proofs live in C03/{SpecProofs,Sorters,LcpInsertion,Radix8,Mkqs,Radix16,Dispatch}.v.  The model
-    (C03/Model.v) is tied to /repo on every run by translate/sizes_c03.py (sizeof / threshold constants) and by the
-    correspondence run of checks/C03.py (extracted model vs. the real sorters; extracted checker on the real output).
+    Statements only; proofs live in C03/{SpecProofs,Sorters,LcpInsertion,Radix8,Mkqs,Radix16,InPlace,InPlace16,Dispatch}.v.
+    The model (C03/Model.v) is tied to /repo on every run by translate/sizes_c03.py (sizeof / threshold constants) and
+    by the correspondence run of checks/C03.py (extracted model vs. the real sorters; extracted checker on the real
+    output).
 
-    Proved without any assumption: the specification side (uniqueness, checker); both insertion sorts; multikey
-    quicksort (Bentley-Sedgewick partition, block swaps, recursion, LCP writes); the out-of-place 8-bit and 16-bit
-    radix steps with their LCP-at-bucket-boundary passes and bucket loops for every depth / stack level / memory
-    value; radixsort_CE0; and tlx::sort_strings / sort_strings_lcp with the default memory argument 0 ("no limit").
-
-    FULL STATEMENT still aimed at: C03_sort_strings_partial / C03_detail_sorters_partial / C03_radix_in_place_partial
-    without their two premises
-      InPlaceOK     the cycle-leader permutation of RadixStep_CI2 groups the array by character
-      InPlace16OK   the same loop in RadixStep_CI3 groups the array by character pair
-    (one loop of the model, [ci_permute]; it is only reachable with a non-zero memory limit that rules out the
-    out-of-place variants).  The correspondence run exercises it on every check (model = implementation on object
-    order). *)
+    Every theorem below is proved without assumption (Print Assumptions: closed under the global context).  The full
+    statement of the property for the model is C03_sort_strings (tlx::sort_strings / sort_strings_lcp, every memory
+    limit, every collection of NUL-free byte strings, with and without LCP output) together with C03_detail_sorters
+    (each selectable sequential sorter at every depth with a common prefix).  The only hypothesis is that the
+    fuelled functions return a result ([= Some _]; fuel exhaustion is the error value). *)
 From Coq Require Import List NArith Sorting.Permutation Sorting.Sorted.
-From TLXV Require Import C03.Model C03.Spec C03.SpecProofs C03.Lemmas C03.Sorters C03.LcpInsertion C03.Radix8 C03.Mkqs C03.Radix16 C03.Dispatch.
+From TLXV Require Import C03.Model C03.Spec C03.SpecProofs C03.Lemmas C03.Sorters C03.LcpInsertion C03.Radix8 C03.Mkqs C03.Radix16 C03.InPlace C03.InPlace16 C03.Dispatch.
 Import ListNotations.
 
 (** Any two outputs satisfying SortedPermLcp for the same input have the same contents at every position and the
@@ -73,16 +67,33 @@ Theorem C03_radix_out_of_place : forall sz wl fuel,
 Proof. exact (fun sz wl fuel => conj (r8_ce_ok sz wl fuel) (r16_ce_ok sz wl fuel)). Qed.
 Print Assumptions C03_radix_out_of_place.
 
-(** The in-place steps (RadixStep_CI2 / CI3): the same, given that the cycle-leader permutation groups the array. *)
-Theorem C03_radix_in_place_partial : forall sz wl, InPlaceOK -> InPlace16OK -> forall fuel,
-  (forall szstep mem s, SorterOK wl (fun d => r8_step sz wl fuel true szstep mem s d)) /\
-  (forall mem s, SorterOK wl (fun d => r16_step sz wl fuel true mem s d)).
-Proof.
-  exact (fun sz wl a b fuel =>
-    conj (r8_step_ok sz wl (insertion_ok wl) (mkqs_ok sz wl) true (fun _ => a) fuel)
-         (r16_step_ok sz wl (mkqs_ok sz wl) true (fun _ => a) (fun _ => b) fuel)).
-Qed.
-Print Assumptions C03_radix_in_place_partial.
+(** The cycle-leader permutation of RadixStep_CI2 / CI3, for any key function and key list: the result is a
+    permutation of the input, and the elements with key k are exactly the region [start k, start k + size k). *)
+Theorem C03_in_place_permutation : forall key ks l p,
+  NoDup ks -> (forall x, In x l -> In (key x) ks) -> ci_permute key ks l = Some p ->
+  Permutation p l /\
+  forall k, In k ks ->
+    filter (fun x => N.eqb (key x) k) p = firstn (N.to_nat (size key l k)) (skipn (N.to_nat (start_in key l ks k)) p).
+Proof. exact ci_permute_ok. Qed.
+Print Assumptions C03_in_place_permutation.
+
+(** The in-place 8-bit step (RadixStep_CI2) and its loop: no assumption. *)
+Theorem C03_radix8_in_place : forall sz wl fuel szstep mem s, SorterOK wl (fun d => r8_step sz wl fuel true szstep mem s d).
+Proof. exact (fun sz wl => r8_step_ok sz wl (insertion_ok wl) (mkqs_ok sz wl) true (fun _ => in_place_ok)). Qed.
+Print Assumptions C03_radix8_in_place.
+
+(** The in-place 16-bit step (RadixStep_CI3) and its loop. *)
+Theorem C03_radix16_in_place : forall sz wl fuel mem s, SorterOK wl (fun d => r16_step sz wl fuel true mem s d).
+Proof. exact (fun sz wl => r16_step_ok sz wl (mkqs_ok sz wl) true (fun _ => in_place_ok) (fun _ => in_place16_ok)). Qed.
+Print Assumptions C03_radix16_in_place.
+
+(** tlx::sort_strings / sort_strings_lcp on fewer than 65536 strings, every memory limit: no assumption. *)
+Theorem C03_sort_strings_small : forall sz wl fuel mem l lcp out lcp',
+  N.ltb (N.of_nat (length l)) Sizes_C03_gen.radix16 = true -> all_nulfree l -> length lcp = length l ->
+  sort_strings sz wl fuel mem l lcp = Some (out, lcp') ->
+  SortedPerm l out /\ (wl = true -> LcpExact out lcp') /\ (wl = false -> lcp' = lcp).
+Proof. exact sort_strings_small_ok. Qed.
+Print Assumptions C03_sort_strings_small.
 
 (** tlx::sort_strings / sort_strings_lcp with the default memory argument (0 = no limit): no assumption. *)
 Theorem C03_sort_strings_unlimited : forall sz wl fuel l lcp out lcp',
@@ -93,32 +104,28 @@ Proof. exact sort_strings_unlimited_ok. Qed.
 Print Assumptions C03_sort_strings_unlimited.
 
 (** The dispatch chain for every memory limit (the limit only selects the algorithm). *)
-Theorem C03_sort_strings_partial : forall sz wl,
-  InPlaceOK -> InPlace16OK ->
-  forall fuel mem l lcp out lcp',
+Theorem C03_sort_strings : forall sz wl fuel mem l lcp out lcp',
     all_nulfree l -> length lcp = length l ->
     sort_strings sz wl fuel mem l lcp = Some (out, lcp') ->
     SortedPerm l out /\ (wl = true -> LcpExact out lcp') /\ (wl = false -> lcp' = lcp).
 Proof. exact sort_strings_ok. Qed.
-Print Assumptions C03_sort_strings_partial.
+Print Assumptions C03_sort_strings.
 
 (** ... and for each selectable detail sorter of the chain, at every depth and memory value
-    (radixsort_CE0 without assumption). *)
-Theorem C03_radixsort_CE0 : forall sz wl fuel mem, SorterOK wl (fun d => radixsort_CE0 sz wl fuel mem d).
-Proof. exact radixsort_CE0_ok. Qed.
-Print Assumptions C03_radixsort_CE0.
+    (radixsort_CE0 and radixsort_CI2 without assumption). *)
+Theorem C03_radixsort_CE0_CI2 : forall sz wl fuel mem,
+  SorterOK wl (fun d => radixsort_CE0 sz wl fuel mem d) /\ SorterOK wl (fun d => radixsort_CI2 sz wl fuel mem d).
+Proof. exact (fun sz wl fuel mem => conj (radixsort_CE0_ok sz wl fuel mem) (radixsort_CI2_ok sz wl fuel mem)). Qed.
+Print Assumptions C03_radixsort_CE0_CI2.
 
-Theorem C03_detail_sorters_partial : forall sz wl,
-  InPlaceOK -> InPlace16OK ->
-  forall fuel mem,
+Theorem C03_detail_sorters : forall sz wl fuel mem,
     SorterOK wl (fun d => radixsort_CE2 sz wl fuel mem d) /\ SorterOK wl (fun d => radixsort_CE3 sz wl fuel mem d) /\
-    SorterOK wl (fun d => radixsort_CI2 sz wl fuel mem d) /\ SorterOK wl (fun d => radixsort_CI3 sz wl fuel mem d).
+    SorterOK wl (fun d => radixsort_CI3 sz wl fuel mem d).
 Proof.
-  exact (fun sz wl c d fuel mem =>
-    conj (radixsort_CE2_ok sz wl c d fuel mem) (conj (radixsort_CE3_ok sz wl c d fuel mem)
-    (conj (radixsort_CI2_ok sz wl c fuel mem) (radixsort_CI3_ok sz wl c d fuel mem)))).
+  exact (fun sz wl fuel mem =>
+    conj (radixsort_CE2_ok sz wl fuel mem) (conj (radixsort_CE3_ok sz wl fuel mem) (radixsort_CI3_ok sz wl fuel mem))).
 Qed.
-Print Assumptions C03_detail_sorters_partial.
+Print Assumptions C03_detail_sorters.
 
 (** The LCP boundary loop as shipped (704fd0b) reads bkt_size[256] when every string ends at the current depth
     (40 empty strings); the repaired loop (fixes/C03/01) yields exactly their LCPs. *)
